@@ -26,4 +26,6 @@ PROPS = {
  "C14": P("C14", ["Properties_C14.v"], 200, 3000, ["G_rbi_createFromMassComInertiaC", "G_st_mul"], unchanged_on_reject=True),
  "C15": P("C15", ["Properties_C15.v"], 150, 2000, ["G_rbi_createFromMassComInertiaC", "G_rbi_toMatrix", "G_VectorCrossMatrix"]),
  "C16": P("C16", ["Properties_C16.v"], 150, 3000, ALL_BRIDGE),
+ "C17": P("C17", ["Properties_C17.v"], 150, 1200, ["G_quat_omegaToQDot", "G_st_apply", "G_st_mul"],
+          skip_labels=("ikq_full", "ikok_full", "ikerr_full", "iksteps_full", "asmq_full", "asmok_full")),
 }
